@@ -431,9 +431,38 @@ def mutation_cases(draw, tier):
         A[0, 0] = [1, 2, 0, -1]
     if not B.any():
         B[0, 0] = [0, 1, 1, 0]
-    q = draw(st.integers(2, 4))
+    q = draw(st.integers(2, 5))
     Sq = draw(gen.qarray(q, q, "generic"))[0]
     H = gen.make_hermitian(draw(gen.qarray(q, q, "generic"))[0])
+    # structured variants reach the special-case branches (identity reflectors, zero pivots, early exits)
+    struct = draw(st.sampled_from(["dense", "dense", "zero_first_subcolumn", "block_diagonal", "diagonal", "zero_column",
+                                   "already_reduced"]))
+    if struct == "zero_first_subcolumn":
+        H[1:, 0] = 0.0
+        H[0, 1:] = 0.0
+        Sq[2:, 0] = 0.0
+        Sq[1, 0] = 0.0
+    elif struct == "block_diagonal":
+        c = draw(st.integers(1, q - 1))
+        H[c:, :c] = 0.0
+        H[:c, c:] = 0.0
+        Sq[c:, :c] = 0.0
+    elif struct == "diagonal":
+        for i in range(q):
+            for j in range(q):
+                if i != j:
+                    H[i, j] = 0.0
+                    Sq[i, j] = 0.0
+    elif struct == "zero_column":
+        A[:, draw(st.integers(0, k - 1))] = 0.0
+        Sq[:, draw(st.integers(0, q - 1))] = 0.0
+    elif struct == "already_reduced":
+        for i in range(q):
+            for j in range(q):
+                if abs(i - j) > 1:
+                    H[i, j] = 0.0
+                if i > j + 1:
+                    Sq[i, j] = 0.0
     Sys = draw(gen.qarray(q, q, "generic"))[0] / 4.0 + 3.0 * ref.qeye(q)
     b = draw(gen.qarray(q, 1, "generic"))[0]
     if not b.any():
@@ -442,7 +471,7 @@ def mutation_cases(draw, tier):
     T3 = draw(gen.qarray(2 * 3, 2, "generic"))[0].reshape(2, 3, 2, 4)
     img = np.abs(draw(gen.qarray(3, 4, "generic"))[0]) / 4.0
     psf = np.array([[0.0, 0.125, 0.0], [0.125, 0.5, 0.125], [0.0, 0.125, 0.0]])
-    return {"probe": draw(st.integers(0, N_PROBES - 1)), "A": A, "B": B, "Sq": Sq, "H": H, "H2": H, "Sys": Sys, "b": b,
+    return {"probe": draw(st.integers(0, N_PROBES - 1)), "struct": struct, "A": A, "B": B, "Sq": Sq, "H": H, "H2": H, "Sys": Sys, "b": b,
             "Tall": np.ascontiguousarray(Tall), "T3": T3, "img": img, "psf": psf, "seed": draw(gen.seeds())}
 
 
@@ -460,7 +489,7 @@ def check_mutation(case):
     P = probes()
     name, fn, build = P[case["probe"] % len(P)]
     out = Out(tags=(name,))
-    out.label(name)
+    out.label(name, "struct=" + case.get("struct", "dense"))
     args = build(case)
     h0 = _hash_args(args)
     np.random.seed(case["seed"])
@@ -596,7 +625,7 @@ PROPERTY = Property(
         Clause("histories_exhaustive", check_history, enumerate=enum_histories, budget={"quick": 0, "thorough": 0}),
         Clause("histories_stateful", check_history, machine=make_machine, budget={"quick": 60, "thorough": 600}, steps=8,
                min_per_shard=4, shrink=False),
-        Clause("mutation_probes", check_mutation, strategy=mutation_cases, budget={"quick": 1600, "thorough": 16000}),
+        Clause("mutation_probes", check_mutation, strategy=mutation_cases, budget={"quick": 2400, "thorough": 24000}),
         Clause("import_style", check_import, strategy=import_cases, budget={"quick": 32, "thorough": 320}, min_per_shard=2,
                shrink=False),
     ],
